@@ -17,7 +17,7 @@
 -/
 import CatVerif.Proofs.WriteNum
 import CatVerif.Proofs.Log
-import CatVerif.Proofs.Steps
+import CatVerif.Proofs.Steps.ParseArgs
 namespace Cat
 open St Spec
 
